@@ -2,6 +2,7 @@ package main
 
 import (
 	"fmt"
+	"go/ast"
 	"strings"
 )
 
@@ -39,4 +40,34 @@ func factsCodec() {
 	reset := vi > 0 && ei > 0 && ei < vi && strings.Contains(load[ei:vi], "this.bytesSize = 0") && strings.Contains(load[ei:vi], "this.len = 0") &&
 		strings.Contains(load, "this.vertices[i] = make(map[uuid.UUID]*hnswVertex, int(shardSize))")
 	known("load_resets_state", "bool", b(reset), "len and data-bytes counter zeroed and every shard replaced before loading")
+	// memory proportional to the input: the allocations of the load path are exactly these - fixed-size buffers, one
+	// shard map sized by the shard's own vertex count, one vector of the index dimension per vertex, key / value buffers
+	// of the 8- / 16-bit lengths just read, nothing sized by a product or by a count of things not yet seen
+	var makes []string
+	for _, fdx := range []*ast.FuncDecl{fd, fd2, findFunc("math/vector.go", "Vector", "Load"), findFunc("index/metadata.go", "Metadata", "load")} {
+		if fdx == nil {
+			makes = append(makes, "?missing")
+			continue
+		}
+		for _, c := range calls(fdx.Body) {
+			if callName(c) == "make" {
+				makes = append(makes, norm(src(c)))
+			}
+		}
+	}
+	want := []string{"make([]byte, uuid.Size)", "make(map[uuid.UUID]*hnswVertex)", "make(map[uuid.UUID]*hnswVertex, int(shardSize))", "make(math.Vector, this.size)", "make(Metadata)",
+		"make([]byte, keyLength)", "make([]byte, valLength)"}
+	extra := []string{}
+	for _, m := range makes {
+		ok := false
+		for _, w := range want {
+			if m == w {
+				ok = true
+			}
+		}
+		if !ok {
+			extra = append(extra, m)
+		}
+	}
+	known("load_allocations_bounded", "bool", b(len(extra) == 0 && len(makes) >= len(want)-1), fmt.Sprintf("allocations on the load path: %s; unexpected: %s", strings.Join(makes, " | "), strings.Join(extra, " | ")))
 }
